@@ -140,7 +140,7 @@ async fn settle() {
     }
 }
 
-fn observe(w: &Rc<RefCell<World>>) -> String {
+fn observe(w: &Rc<RefCell<World>>, root: RootHandle) -> String {
     let evs = LOG.with(|l| std::mem::take(&mut *l.borrow_mut()));
     let mut loads = Vec::new();
     for (id, (outer, inner)) in w.borrow().probes.iter() {
@@ -152,9 +152,11 @@ fn observe(w: &Rc<RefCell<World>>) -> String {
         let v = if a == b { a } else { format!("{a}/{b}") };
         loads.push(format!("{id}={v}"));
     }
+    // use_is_loading_global(): is any suspense scope loading? (what the blocking render waits on)
+    let glob = panic::catch_unwind(AssertUnwindSafe(|| root.run_in(|| untrack(|| use_is_loading_global() as u8)).to_string())).unwrap_or_else(|_| "PANIC".to_string());
     // the panic hook logs probe panics too: drop those
     LOG.with(|l| l.borrow_mut().retain(|e| !e.starts_with("PANIC")));
-    format!("log {} ; load {}", evs.join(" "), loads.join(" "))
+    format!("log {} ; load {} ; glob {}", evs.join(" "), loads.join(" "), glob)
 }
 
 async fn run_scenario(line: String) -> Vec<String> {
@@ -169,7 +171,7 @@ async fn run_scenario(line: String) -> Vec<String> {
     let prog_again = prog.clone();
     let root = create_root(move || build(&prog, &w2));
     settle().await;
-    out.push(observe(&w));
+    out.push(observe(&w, root));
     for step in schedule {
         let s = step.list();
         match s[0].atom() {
@@ -196,7 +198,7 @@ async fn run_scenario(line: String) -> Vec<String> {
             x => panic!("bad step {x}"),
         }
         settle().await;
-        out.push(observe(&w));
+        out.push(observe(&w, root));
     }
     // drop everything that is still pending: must not panic either
     let r = panic::catch_unwind(AssertUnwindSafe(|| root.dispose()));
@@ -213,7 +215,7 @@ async fn run_scenario(line: String) -> Vec<String> {
     }
     w.borrow_mut().gates.clear();
     settle().await;
-    out.push(format!("again {}", observe(&w3)));
+    out.push(format!("again {}", observe(&w3, root)));
     let r = panic::catch_unwind(AssertUnwindSafe(|| root.dispose()));
     if r.is_err() {
         log("PANIC:at-root-dispose".to_string());
